@@ -40,17 +40,17 @@ Ltac use_cnt4 E :=
     destruct (cnt4 _ _ _ c' E) as (A & B & C & D); simpl in A, B, C, D
   end.
 
-Lemma do_pop_inv : forall a i b m a' ph,
+Lemma do_pop_inv : forall a i m a' ph,
   nth_error (a_cl a) i = Some ph ->
-  do_pop a i b m = Some a' ->
+  do_pop a i m = Some a' ->
   (* the permit being consumed: either msgs = S m and the client is idle, or the client was granted and m = msgs *)
-  ((ph = CIdle /\ a_msgs a = S m) \/ (ph = CRecvGranted b /\ a_msgs a = m)) ->
+  ((ph = CIdle /\ a_msgs a = S m) \/ ((exists b, ph = CRecvGranted b) /\ a_msgs a = m)) ->
   amp_inv a -> amp_inv a'.
 Proof.
-  intros a i b m a' ph E H Hph (I1 & I2 & I3).
+  intros a i m a' ph E H Hph (I1 & I2 & I3).
   unfold do_pop in H. destruct (a_q a) as [|v q'] eqn:Q; [discriminate|]. inversion H; subst a'; clear H.
   unfold amp_inv; simpl in *.
-  destruct b; use_cnt4 E; destruct Hph as [[-> Hm]|[-> Hm]]; simpl in *;
+  use_cnt4 E; destruct Hph as [[-> Hm]|[[b ->] Hm]]; simpl in *;
     (repeat split; [lia | lia | rewrite I3, <- app_assoc; reflexivity]).
 Qed.
 
@@ -60,11 +60,11 @@ Proof.
   intros a i l a' H Hinv.
   unfold astep in H. destruct (nth_error (a_cl a) i) as [ph|] eqn:E; [|discriminate].
   destruct l, ph; try discriminate;
-    try (eapply do_pop_inv; [exact E | exact H | | exact Hinv]; auto; fail).
+    try (eapply do_pop_inv; [exact E | exact H | | exact Hinv]; eauto; fail).
   all: try (destruct (a_closed a) eqn:Cl; try discriminate).
   all: try (destruct (a_free a) as [|f] eqn:F; try discriminate).
   all: try (destruct (a_msgs a) as [|m] eqn:M; try discriminate).
-  all: try (eapply do_pop_inv; [exact E | exact H | | exact Hinv]; auto; fail).
+  all: try (eapply do_pop_inv; [exact E | exact H | | exact Hinv]; eauto; fail).
   all: inversion H; subst a'; clear H; destruct Hinv as (I1 & I2 & I3); unfold amp_inv, with_cl, do_push; simpl in *.
   all: try use_cnt4 E; try rewrite app_length; simpl.
   all: repeat split; try lia.
@@ -160,11 +160,12 @@ Proof.
     rewrite (IH _ _ H). eapply a_k_step; eassumption.
 Qed.
 
-(* at rest, on an open channel: free slots + buffered messages + the slots kept by blocking_recv = capacity *)
+(* at rest, on an open channel: free slots + buffered messages = capacity - every value received by any receive method
+   gave its slot back - and the message permits equal the buffered messages *)
 Lemma amp_at_rest : forall k n steps a,
   arun (amp_init k n) steps = Some a ->
   forallb is_idle (a_cl a) = true -> a_closed a = false ->
-  a_free a + length (a_q a) + a_leaked a = k /\ a_msgs a = length (a_q a).
+  a_free a + length (a_q a) = k /\ a_msgs a = length (a_q a).
 Proof.
   intros k n steps a H Hidle Hopen.
   pose proof (amp_run_from_init _ _ _ _ H) as (I1 & I2 & I3).
